@@ -5,7 +5,9 @@ import signal
 from datetime import timedelta
 from typing import Any, Dict, List
 
-KINDS = ("vts", "test", "hist")
+KINDS = ("vts", "test", "hist", "histn")     # histn: a historical scheduler whose clock is a NAIVE datetime
+from datetime import datetime as _dt
+NAIVE0 = _dt(2000, 1, 1)
 
 
 class Hang(BaseException):
@@ -23,6 +25,8 @@ def make_sched(kind: str):
         return VirtualTimeScheduler(0)
     if kind == "test":
         return TestScheduler()
+    if kind == "histn":
+        return HistoricalScheduler(NAIVE0)
     return HistoricalScheduler()
 
 
@@ -32,7 +36,9 @@ def perform(scn: Dict[str, Any], kind: str, watchdog: float = 5.0, tick: float =
     from reactivex.scheduler.scheduler import UTC_ZERO
     from reactivex.scheduler import VirtualTimeScheduler
     s = make_sched(kind)
-    dt = kind == "hist"
+    dt = kind in ("hist", "histn")
+    if kind == "histn":
+        UTC_ZERO = NAIVE0
 
     def A(t):  # absolute tick -> scheduler time
         return UTC_ZERO + timedelta(seconds=t * tick) if dt else float(t)
@@ -167,7 +173,9 @@ def spin_run(scn: Dict[str, Any], kind: str, max_spinning: int, watchdog: float 
     saved = vmod.MAX_SPINNING
     vmod.MAX_SPINNING = max_spinning
     s = make_sched(kind)
-    dt = kind == "hist"
+    dt = kind in ("hist", "histn")
+    if kind == "histn":
+        UTC_ZERO = NAIVE0
     n = scn["mult"] * max_spinning + scn["delta"]
     order: List[int] = []
     clocks: List[Any] = []
